@@ -287,3 +287,13 @@ package playlist
 //@ func parseTime
 //@   props C15
 //@ end
+
+// C14: a new EXT-X-KEY tag is written exactly when the key differs from the previous segment's in any
+// attribute; Equal is field-wise equality (a key that compares equal is not re-written, so any attribute
+// it ignores would be lost by Marshal followed by Unmarshal)
+//@ func MediaKey.Equal
+//@   props C14
+//@   requires t != nil
+//@   ensures key != nil ==> (result == (t.Method == key.Method && t.URI == key.URI && t.IV == key.IV && t.KeyFormat == key.KeyFormat && t.KeyFormatVersions == key.KeyFormatVersions))
+//@   ensures key == nil ==> !result
+//@ end
